@@ -122,7 +122,7 @@ func gridZoo() []SetChoice {
 			}, grid.Spec{Name: "NetherlandsRDNewQuad"}, []int{9, 10, 11, 12}},
 			{"dyadic", func() grid.Spec {
 				oy := twoDec(9000)
-				return grid.Spec{Depth: 4, Cell: 16, Origin: twoDec(9000), OriginY: &oy}
+				return grid.Spec{Depth: 4, Cell: 16, Origin: twoDec(9000), OriginY: &oy, TopLeft: rng.Bool()} // either corner convention
 			}, dy(4, 16, 0), []int{0, 1, 2}},
 		}
 		for _, k := range kinds {
@@ -201,7 +201,7 @@ func countSet(rec *fw.Recorder, sc *SnapCase) {
 		rec.Count("grid-class:" + cls)
 	}
 	switch sc.Kind {
-	case "huge", "zipper", "big", "nest", "moat":
+	case "huge", "zipper", "big", "nest", "moat", "lobes":
 		rec.Count("kind:" + sc.Kind)
 	}
 	if sc.TMS.Name == "" && sc.TMS.TileWidth&(sc.TMS.TileWidth-1) != 0 {
@@ -209,8 +209,8 @@ func countSet(rec *fw.Recorder, sc *SnapCase) {
 	}
 }
 
-var validKinds = []string{"star", "star", "comb", "sliver", "angle", "rectholes", "spiky", "spiky", "grow", "grow", "border", "angle", "moat", "nest"}
-var allKinds = []string{"star", "comb", "sliver", "angle", "rectholes", "spiky", "grow", "junk", "junk", "motif", "motif", "border", "moat", "nest"}
+var validKinds = []string{"star", "star", "comb", "sliver", "angle", "rectholes", "spiky", "spiky", "grow", "grow", "border", "angle", "moat", "nest", "lobes"}
+var allKinds = []string{"star", "comb", "sliver", "angle", "rectholes", "spiky", "grow", "junk", "junk", "motif", "motif", "border", "moat", "nest", "lobes"}
 
 // genSnapCase draws one case; returns nil (and the reason) when the draw has to be skipped.
 func genSnapCase(rng *fw.Rng, pr *Profile) (*SnapCase, string) {
